@@ -61,7 +61,9 @@ Values == CASE Kernel \in {"ref", "cw", "struct", "switch", "defect"} -> {Num("2
                          Rng(Num("2"), Num("3")), Rng(Num("1.5"), Frac(0, 7, 2))}
 Units == IF Kernel = "full" THEN {"", "", "g", "kg", "ml", "cups", "tsp", "bag", "min"} ELSE {""}
 TimeUnits == {"min", "h", "minutes", "s"}
-Aliases == IF Syn("ALIAS") /\ Kernel = "full" THEN {"", "", "oil"} ELSE {""}
+\* (an alias may spell the name of another component: references go by name, never by alias)
+Aliases == IF Syn("ALIAS") /\ Kernel = "full" THEN {"", "", "oil", "salt"} ELSE {""}
+CwAliases == IF Syn("ALIAS") /\ Kernel = "full" THEN {"", "", "", "pan"} ELSE {""}
 Notes == IF Kernel = "full" THEN {"", "", "finely chopped"} ELSE {""}
 Words == IF Kernel = "full" THEN {"Mix", "the", "and", "well", "crE2me", "a\\@b", "50%", "E4"} ELSE {"mix"}
 WordChunks(x) == CASE x = "crE2me" -> <<"cr", "E2", "me">> [] x = "a\\@b" -> <<"a", "BS", "@b">> [] OTHER -> <<x>>
@@ -79,7 +81,7 @@ Canon == [pad |-> "", ws |-> "", fs |-> "", rs |-> "", adv |-> FALSE, braces |->
 Spellings == [pad : {"", " "}, ws : {"", " "}, fs : {"", " "}, rs : {"", " "}, adv : BOOLEAN, braces : BOOLEAN, rev : BOOLEAN,
               sep : 1..5, key : 1..3, sec : 1..3, gap : 1..3]
 SpSet == IF Mode = "sim"
-         THEN {[pad |-> R({"", " "}), ws |-> R({"", " "}), fs |-> R({"", " "}), rs |-> R({"", " "}), adv |-> R(BOOLEAN), braces |-> R(BOOLEAN),
+         THEN {[pad |-> R({"", " ", " ", "TAB"}), ws |-> R({"", " ", " ", "TAB"}), fs |-> R({"", " "}), rs |-> R({"", " "}), adv |-> R(BOOLEAN), braces |-> R(BOOLEAN),
                 rev |-> R(BOOLEAN), sep |-> R(1..5), key |-> R(1..3), sec |-> R(1..3), gap |-> R(1..3)]}
          ELSE {Canon}
 NL == IF w.crlf THEN <<"CR", "LF">> ELSE <<"LF">>
@@ -95,7 +97,7 @@ ValChunks(v, sp) == CASE v.t \in {"num", "frac"} -> NumChunksSp(v, sp)
                       [] v.t = "text" -> <<v.s>>
 \* what a value written like this READS as: without RANGE a range is a text value (only generated compactly then)
 RECURSIVE Flat(_, _)
-Flat(cs, i) == IF i > Len(cs) THEN "" ELSE (IF cs[i] \in {"SP", "NSP"} THEN " " ELSE cs[i]) \o Flat(cs, i + 1)
+Flat(cs, i) == IF i > Len(cs) THEN "" ELSE (IF cs[i] \in {"SP", "NSP", "TAB"} THEN " " ELSE cs[i]) \o Flat(cs, i + 1)
 ReadVal(v) == IF v.t = "range" /\ ~Has("RANGE") THEN Txt(Flat(ValChunks(v, Canon), 1)) ELSE v
 CanAdv(q) == Syn("ADVANCED_UNITS") /\ q.v.t # "text" /\ q.unit # "" /\ (Has("ADVANCED_UNITS") \/ ~q.lock)
 \* quantity between braces
@@ -259,8 +261,8 @@ AddInterRef == /\ InStep /\ w.nc < MaxComps /\ Syn("INTERMEDIATE") /\ Has("MODIF
 CwQuantities == {NoQ, [v |-> Num("2"), unit |-> "", lock |-> FALSE], [v |-> Txt("some"), unit |-> "", lock |-> FALSE]}
 AddCookware == /\ InStep /\ w.nc < MaxComps /\ Kernel \in {"full", "cw", "defect"}
                /\ \E n \in Pick(CASE Kernel = "full" -> {"pan", "Pan", "frying pan"} [] Kernel = "defect" -> {"p"} [] OTHER -> {"a", "A", "b"}), ms \in Pick(ModSets \ {{"recipe"}}),
-                     q \in Pick(IF Kernel = "full" THEN CwQuantities ELSE {NoQ, [v |-> Num("2"), unit |-> "", lock |-> FALSE]}), nt \in Pick(Notes), sp \in SpSet :
-                    WriteComp("cw", [name |-> n, alias |-> "", mods |-> ms, inter |-> NoInter, q |-> q, note |-> nt], sp)
+                     q \in Pick(IF Kernel = "full" THEN CwQuantities ELSE {NoQ, [v |-> Num("2"), unit |-> "", lock |-> FALSE]}), nt \in Pick(Notes), al \in Pick(CwAliases), sp \in SpSet :
+                    WriteComp("cw", [name |-> n, alias |-> al, mods |-> ms, inter |-> NoInter, q |-> q, note |-> nt], sp)
 AddTimer == /\ InStep /\ w.nc < MaxComps /\ Kernel = "full"
             /\ \E n \in Pick({"", "rest"}), v \in Pick({Num("5"), Num("1.5"), Frac(0, 1, 2)}), u \in Pick(TimeUnits), noq \in Pick({FALSE, FALSE, TRUE}), sp \in SpSet :
                  /\ (noq => n # "" /\ ~Has("TIMER_REQ"))
@@ -365,7 +367,9 @@ BadModeValue == /\ Top /\ Has("MODES") /\ w.defect = NoDefect /\ Kernel \in {"fu
                      /\ w' = [w EXCEPT !.nb = @ + 1, !.prev = "meta",
                                        !.defect = [class |-> "BadModeValue", sev |-> "error", stage |-> "analysis", s |-> s0, e |-> s0 + BytesOf(line, 1)]]
 BadFrontMatter == /\ Top /\ w.nb = 0 /\ text = <<>> /\ Kernel \in {"full", "defect"}
-                  /\ \E y \in Pick({<<"k: [a">>, <<"k: v">> \o NL \o <<" : : x">>, <<"k: ", "QUOTE", "open">>}) :
+                  /\ \E y \in Pick({<<"k: [a">>, <<"k: v">> \o NL \o <<" : : x">>, <<"k: ", "QUOTE", "open">>,
+                                   \* well-formed YAML that is no mapping, and a mapping with one key twice
+                                   <<"- a">> \o NL \o <<"- b">>, <<"just a title">>, <<"42">>, <<"k: v">> \o NL \o <<"k: w">>}) :
                        LET t == <<"---">> \o NL \o y \o NL \o <<"---">> \o NL IN
                        /\ text' = t
                        /\ a' = AFrontMatter(a, <<>>, FALSE)
